@@ -72,7 +72,7 @@ def rich_world(seed, n_chroms=6, genes_per_chrom=3, groups=3, multimappers=True,
     rng = w.rng
     for ci in range(n_chroms):
         cname = "chr%d" % (ci + 1)
-        w.add_chrom(cname, 60000 + ci * 4321 + genes_per_chrom * 9000 + extra_len + (146000 if zoo else 0))
+        w.add_chrom(cname, 60000 + ci * 4321 + genes_per_chrom * 9000 + extra_len + (154000 if zoo else 0))
         pos = 1500
         for gi in range(genes_per_chrom):
             gid = "G%d_%d" % (ci + 1, gi + 1)
@@ -670,6 +670,34 @@ def antisense_shared_exon_locus(w, gid, chrom, p):
     return [ga, gb, gm, gn], p + 3900
 
 
+def micro_exon_sibling_locus(w, gid, chrom, p, strand, side="after"):
+    """Annotated host e1-e2-e5; two unannotated isoforms through e1-e2: X (thin) continues with intron I1, a 10-bp micro-exon and intron
+    I2; Y (5x the coverage) continues with intron I1' that shares I1's start and ends 15 bp further (inside I2), i.e. a sibling of I1 in
+    the intron graph that overlaps X's next intron.  side="before": the mirror arrangement (micro-exon before the sibling pair)."""
+    host = [(0, 300), (1000, 2000), (4200, 4600)]
+    x = [(0, 300), (1000, 2000), (2501, 2510), (3201, 3600), (4200, 4600)]
+    y = [(0, 300), (1000, 2000), (2516, 2800), (3601, 3900), (4200, 4600)]
+    span = 4600
+
+    def place(ex):
+        if side == "after":
+            return [(p + a, p + b) for a, b in ex]
+        return sorted((p + span - b, p + span - a) for a, b in ex)
+    g = Gene(gid, chrom, strand)
+    g.transcripts.append(Transcript(gid + ".t1", gid, chrom, strand, place(host), True, "micro-exon-host"))
+    g.hidden.append(Transcript(gid + ".hX", gid, chrom, strand, place(x), False, "micro-exon-next-to-sibling-intron"))
+    g.hidden.append(Transcript(gid + ".hY", gid, chrom, strand, place(y), False, "sibling-intron-overlapping-next-intron"))
+    for t in g.transcripts + g.hidden:
+        for intr in t.introns:
+            w.plant_sites(chrom, intr, strand)
+    w.genes.append(g)
+    tail = dict(polya=30) if strand == "+" else dict(polyt=30, flag=16)
+    for t, n in ((g.transcripts[0], 5), (g.hidden[0], 4), (g.hidden[1], 20)):
+        for _ in range(n):
+            w.make_read(chrom, list(t.exons), truth={"src": t.id, "class": "exact"}, **tail)
+    return g, p + span
+
+
 def near_site_novel_locus(w, gid, chrom, p, strand):
     """t1 = e1..e5, t2 = e1-e3-e5 (annotated); the unannotated isoform e1-e2-e3-e5' is a new combination of annotated introns except
     that its last junction (first for '-') sits 3 bp away from the annotated site of t2's intron: that intron is unannotated, although it
@@ -742,7 +770,7 @@ def gene_valley_locus(w, gid, chrom, p, strand):
 
 ZOO_ALL = ("ambiguous_only", "twins", "contested", "intronic", "apa", "alt_terminal", "shifted_site", "shared_chain", "same_coords",
            "one_bp_exon", "lowmapq_two_exon", "mono_only", "gap_gene", "gene_valley", "odd_chroms",
-           "near_site_novel", "low_cov_novel", "two_exon_alt_polya", "dense_two_exon", "antisense_shared_exon")
+           "near_site_novel", "low_cov_novel", "two_exon_alt_polya", "dense_two_exon", "antisense_shared_exon", "micro_exon_sibling")
 ZOO_NO_TIES = tuple(z for z in ZOO_ALL if z != "twins")
 
 
@@ -880,6 +908,9 @@ def add_zoo(w, parts=ZOO_ALL):
             # on the longest sequence (handled first)
             dense_two_exon_locus(w, "ZDN" + tag, chrom, _free_pos(w, chrom, 3000), "+-"[ci % 2])
             placed.add("dense_two_exon")
+        if "micro_exon_sibling" in parts and room(7500):
+            micro_exon_sibling_locus(w, "ZMX" + tag, chrom, _free_pos(w, chrom), "+-"[ci % 2], ("after", "before")[(ci // 2) % 2])
+            placed.add("micro_exon_sibling")
         if "antisense_shared_exon" in parts and ci % 2 == 0 and room(8000):
             antisense_shared_exon_locus(w, "ZAS" + tag, chrom, _free_pos(w, chrom))
             placed.add("antisense_shared_exon")
